@@ -279,6 +279,11 @@ def laws_for(rec, ep, g, rnd, txn, variables, rows, depth):
     if changed:
         law(rec, ep, 'letter-case', e, flipped, txn, variables, rows)
     if rnd.random() < .3:
+        # anyof(a, b) is contains(a) or contains(b) - for letters whose upper-case form is longer than they are, too (ß / SS, ligatures)
+        pa, pb = rnd.sample(['GROSSMARKT', 'gro\u00dfmarkt', 'OFFICE', 'o\ufb03ce', 'METRO', 'stra\u00dfe', 'STRASSE', 'NETFLIX', 'caf\u00e9', 'CAF\u00c9'], 2)
+        t2 = dict(txn, description=rnd.choice(['Edeka Gro\u00dfmarkt Hamburg', 'EDEKA GROSSMARKT', 'O\ufb03ce Depot 12', 'OFFICE DEPOT', 'Hauptstra\u00dfe 5', 'Caf\u00e9 Bleu', txn.get('description') or '']))
+        law(rec, ep, 'anyof-is-contains-or', 'anyof("%s", "%s")' % (pa, pb), 'contains("%s") or contains("%s")' % (pa, pb), t2, variables, rows, as_bool=True)
+    if rnd.random() < .3:
         p = g.q(g.lit())
         cv = impl_eval(ep, 'contains(%s)' % p, txn, variables, rows)
         fv = impl_eval(ep, 'fuzzy(%s)' % p, txn, variables, rows)
